@@ -379,7 +379,13 @@ fn gen_doc(rng: &mut Rng, doc: usize, load_from: Option<(&str, &str)>) -> GenDoc
     let mut local: Vec<String> = Vec::new();
     let mut visible: Vec<String> = Vec::new();
     if let Some((file, sym)) = load_from {
-        g.lines.push(format!("load(\"{file}\", \"{sym}\")"));
+        // Sometimes through an alias (the alias equals the exported name so that the rest of the
+        // document is the same either way).
+        if g.rng.chance(1, 3) {
+            g.lines.push(format!("load(\"{file}\", {sym} = \"{sym}\")"));
+        } else {
+            g.lines.push(format!("load(\"{file}\", \"{sym}\")"));
+        }
         visible.push(sym.to_owned());
         g.use_stmt(0, sym);
     }
@@ -966,7 +972,8 @@ impl World for C19 {
             if let Some((ll, lt)) = lines.iter().enumerate().find(|(_, l)| l.starts_with("load(")) {
                 let path_col = lt.find("d0").map(|i| lt[..i].chars().count() as u32 + 1).unwrap_or(7);
                 let sym_col = lt.rfind('"').map(|i| lt[..i].chars().count() as u32 - 1).unwrap_or(18);
-                for ch in [path_col, sym_col] {
+                let alias_col = lt.find(", ").map(|i| lt[..i].chars().count() as u32 + 2).unwrap_or(sym_col);
+                for ch in [path_col, sym_col, alias_col, alias_col + 1] {
                     for method in ["textDocument/definition", "textDocument/hover", "textDocument/completion"] {
                         if o.violation.is_some() {
                             break;
@@ -991,11 +998,13 @@ impl World for C19 {
                     break;
                 }
                 let line = rng.below(nl + 3);
-                let ch = match rng.below(4) {
+                let ch = match rng.below(6) {
                     0 => 0,
                     1 | 2 => 100_000,
+                    3 => 4_294_967_295,
                     _ => rng.below(60),
                 };
+                let line = if rng.chance(1, 12) { 4_294_967_295 } else { line };
                 let method = *rng.pick(&["textDocument/definition", "textDocument/definition", "textDocument/hover", "textDocument/completion"]);
                 o.sim_time += 1;
                 o.bump("probe.requests_at_odd_positions", 1);
